@@ -4,6 +4,8 @@ import ast
 from ..core import AnalysisError, src, qualname_of, enclosing_function, parents
 from ..pysym import path_values, SymExec, show, subterms
 from ..rules_pyx import N, C, A, bind_args
+from .. import logic
+
 from .. import codec
 from .. import datafiles as df
 from .. import symcat as sc
@@ -134,7 +136,59 @@ def r_symbols(repo, rep, R='R20.2'):
     return len(need)
 
 
+FIND_EXAMPLE = '''
+def cut(text, sink):
+    if '_' in text:
+        sink(text[:text.find('_')])
+    return text[:text.find('.')]
+'''
+
+
+def _find_slices(fn):
+    """-> [(slice term, separator term, guarded?)] for  x[..x.find(sep)..]  slices evaluated on the paths of fn"""
+    out = {}
+    for st, o in SymExec(fn, unroll=1).run():
+        trace = [(e[1], e[2]) for e in st.events if e[0] == 'branch']
+        terms = [x for e in st.events for x in e[1:-1] if isinstance(x, tuple)]
+        for t in terms:
+            for s_ in subterms(t):
+                if s_[0] == 'sub' and s_[2][0] == 'slice':
+                    base, sl = s_[1], s_[2]
+                    for bound in (sl[1], sl[2]):
+                        if bound is not None and bound[0] == 'call' and bound[1][0] == 'attr' and bound[1][2] == 'find' \
+                                and bound[1][1] == base and len(bound[2]) == 1:
+                            sep = bound[2][0]
+                            guarded = logic.implied(trace, logic.formula(('cmp', 'in', sep, base))) or \
+                                any(c[0] == 'cmp' and bound in (c[2], c[3]) for c, pol in trace)
+                            key = (s_, sep)
+                            out[key] = out.get(key, True) and guarded
+    return [(k[0], k[1], v) for k, v in out.items()]
+
+
 def r_find_guard(repo, rep, R='R20.3'):
+    # the rule looks for a hazard that the tree may well not contain at all: prove on every run that it can see one
+    ex = ast.parse(FIND_EXAMPLE)
+    from ..core import attach_parents
+    attach_parents(ex)
+    got = sorted((show(sep), g) for _, sep, g in _find_slices(ex.body[0]))
+    if got != [("'.'", False), ("'_'", True)]:
+        raise AnalysisError('embedded example of a find()-derived slice is judged %s' % got)
+    rep.ok(R, 'sa/checks/c20.py FIND_EXAMPLE', 'the analysis tells the guarded find()-slice from the unguarded one in the embedded example')
+    n = 0
+    for rel in (RD, JRD):
+        mod = repo.module(rel)
+        for fn in [f for f in ast.walk(mod.tree) if isinstance(f, ast.FunctionDef)]:
+            n += 1
+            for s_, sep, guarded in _find_slices(fn):
+                w = '%s:%s %s' % (rel, fn.lineno, qualname_of(fn))
+                rep.check(guarded, R, w, '%s:%s:find-slice:%s' % (rel, qualname_of(fn), show(sep)),
+                          'the cut at %s is applied only when the separator occurs' % show(sep),
+                          '`%s`: when %s does not occur, find() is -1 and the slice silently drops the last character'
+                          % (show(s_)[:80], show(sep)))
+    return n
+
+
+def _r_find_guard_old(repo, rep, R='R20.3'):
     n = 0
     for rel in (RD, JRD):
         mod = repo.module(rel)
@@ -385,6 +439,6 @@ def check(repo, rep, tier):
     n = r_symbols(repo, rep)
     rep.floor('Japanese rule symbols required', n, 13)
     nf = r_find_guard(repo, rep)
-    rep.floor('find-derived slices inspected', nf, 1)
+    rep.floor('reader functions scanned for find()-derived slices', nf, 25)
     r_ptb(repo, rep)
     r_ja(repo, rep)
